@@ -326,6 +326,14 @@ func (r *Run) runPath(w *Worker, it workItem) (more [][]uint64) {
 	var panicModel []drawVal
 	var passModel *sample
 	site := ""
+	var hangModel []drawVal
+	hangSite := ""
+	if kind == "budget" && strings.HasPrefix(msg, "loop cap") {
+		hangSite = m.panicSiteFromStack()
+		if mod, res := m.currentModel(); res == "sat" {
+			hangModel = mod
+		}
+	}
 	var writeModel []drawVal
 	for _, e := range m.events {
 		if e.kind == "write" && writeModel == nil && kind != "gopanic" {
@@ -447,6 +455,15 @@ func (r *Run) runPath(w *Worker, it workItem) (more [][]uint64) {
 	case "budget":
 		hr.budget++
 		hr.budgetMsgs[msg]++
+		if hangModel != nil {
+			// a loop that ran past its cap is a non-termination candidate: decided by the native replay
+			// under a wall-clock deadline (reproduced only if the real code does not return)
+			lbl := "hang@" + hangSite
+			if m.context != "" {
+				lbl += "#" + m.context
+			}
+			addFinding("panic", lbl, msg, hangModel)
+		}
 	default:
 		hr.unsupported++
 		hr.unsupMsgs[kind+": "+msg]++
